@@ -63,7 +63,8 @@ pub fn run(ctx: &mut Ctx, _replay: Option<&Value>) {
         let repeats = if i % 8 == 0 { 3 } else { 1 };
         let out = real::guard(|| {
             let mut issuer = Issuer::new(doc.clone())?;
-            for p in PATHS { issuer.disclosable(p); }
+            // every 4th issuance marks only nested members / array elements (no top-level `_sd` of its own)
+            if i % 4 == 3 { for p in &PATHS[4..18] { issuer.disclosable(p); } } else { for p in PATHS { issuer.disclosable(p); } }
             issuer.decoy(max);
             let mut h = Header::new(Algorithm::HS256);
             h.typ = Some("sd-jwt".into());
@@ -102,7 +103,8 @@ pub fn run(ctx: &mut Ctx, _replay: Option<&Value>) {
                 own.push(dg);
                 // `_sd` lists inside disclosed values
                 if let Some(a) = dec.as_ref().and_then(|a| a.as_array()) {
-                    collect_sd_lists(a.last().unwrap(), &format!("disc:{}", PATHS[di]), &mut inner_lists);
+                    let name = if discs.len() == PATHS.len() { PATHS[di] } else { PATHS[4 + di] };
+                    collect_sd_lists(a.last().unwrap(), &format!("disc:{}", name), &mut inner_lists);
                 }
             }
             let mut lists = Vec::new();
